@@ -755,7 +755,9 @@ class AndMaybeMatcher(AdditiveBiMatcher):
         ra = self.a.skip_to(id)
         rb = False
         if self.a.is_active() and self.b.is_active():
-            rb = self.b.skip_to(id)
+            # Align the optional matcher with the document the required
+            # matcher landed on, as next() does
+            rb = self.b.skip_to(self.a.id())
         return ra or rb
 
     def replace(self, minquality=0):
